@@ -61,6 +61,38 @@ pub fn one(out: &mut Out, nr: usize, nc: usize, logical: &[Vec<usize>]) {
                             out.oracle_fail(&format!("{op}: an element-less matrix printed as {:?}", text));
                         }
                     }
+                    if kind == "debug" {
+                        if nr * nc == 0 && text != "[]" {
+                            out.oracle_fail(&format!("{op}: an element-less matrix printed as {:?}", text));
+                        }
+                        if all_single && nr * nc > 0 {
+                            // `[`, a header of column numbers, one bracketed line per logical row (labelled with its
+                            // number; every element labelled with its position in memory order), `]`; row lines equally wide
+                            let lines: Vec<&str> = text.split('\n').collect();
+                            if lines.len() != nr + 3 || lines[0] != "[" || lines[nr + 2] != "]" {
+                                out.oracle_fail(&format!("{op}: {} lines for {nr} rows: {:?}", lines.len(), text.chars().take(300).collect::<String>()));
+                            } else {
+                                let widths: Vec<usize> = lines[2..nr + 2].iter().map(|l| l.chars().count()).collect();
+                                if widths.iter().any(|w| *w != widths[0]) {
+                                    out.oracle_fail(&format!("{op}: Debug row lines have widths {:?}", widths));
+                                }
+                                let iw = (nr * nc).to_string().len();
+                                let w = logical.iter().flatten().map(|&i| PALETTE[i].chars().count()).max().unwrap_or(0).max(1);
+                                for (r, l) in lines[2..nr + 2].iter().enumerate() {
+                                    let cells: Vec<String> = (0..nc).map(|c| {
+                                        let pos = if order == Order::RowMajor { r * nc + c } else { c * nr + r };
+                                        let s = PALETTE[logical[r][c]];
+                                        let body = if s.is_empty() { " ".repeat(w) } else { format!("{s}{}", " ".repeat(w - s.chars().count().min(w))) };
+                                        format!("{pos:>iw$} {body}")
+                                    }).collect();
+                                    let want = format!("    {r:>iw$}  [{}]", cells.join("  "));
+                                    if *l != want {
+                                        out.oracle_fail(&format!("{op}: Debug row {r} is {:?}, expected {:?}", l, want));
+                                    }
+                                }
+                            }
+                        }
+                    }
                     format!("ok {}", escape(&text))
                 }
             };
@@ -113,6 +145,6 @@ pub fn run_c20(out: &mut Out, rng: &mut Rng, tier: Tier) -> String {
     format!(
         "every shape 0..={bound} x 0..={bound} x {per_shape} assignments of element renderings from a 22-entry palette (empty string, ASCII, multi-byte, blank, tab, bare CR, renderings with LF / CRLF / trailing and doubled line breaks): all-empty, all-equal, single-line mixes, arbitrary mixes; \
          each logical matrix is built in both storage orders and formatted with Display and Debug (crate features full = parallel + pretty-debug, NO_COLOR set); plus 3x4, 10x11 and 1x101 for 2- and 3-digit index labels. \
-         Oracle: never a panic; element-less => `[]`; for single-line renderings exactly one bracketed line per logical row with the row's elements in column order, padded to the common width, all lines equally wide in characters; Display text identical for both orders. A case = one logical matrix"
+         Oracle: never a panic; element-less => `[]` (both impls); Debug for single-line renderings: header line, one bracketed line per logical row with its number and every element labelled with its memory-order position, all row lines equally wide; for single-line renderings exactly one bracketed line per logical row with the row's elements in column order, padded to the common width, all lines equally wide in characters; Display text identical for both orders. A case = one logical matrix"
     )
 }
